@@ -16,13 +16,16 @@ RULE = (
     'random programs with repeated calls, byte order native/little/big, BytesIO and real files (nested directories, output-target histories: a path that already holds a larger / smaller / equally long file, a file written before by another builder program, a replaced directory entry; a BytesIO already holding data, positioned at 0 or at its end, '
     'file names up to 200 chars), titles/paths/labels of length 0..300, 0..1e5 pixels, add_pixel_data with the nine default rows or a custom selection of 1..12 rows (reordered, repeated, custom stored units) and coordinates of dtype float64/float32/int64/int32, chunk sizes from '
     '{1,2,3,8,9,10,npix-1,npix,npix+1,8192,1e5}, 1..20 runs. Every case is built with the real SqwBuilder; files up to '
-    '160 kB are decoded by the Lean decoder and re-encoded by the Lean builder model (bytes must be identical), all '
+    '160 kB are decoded by the Lean decoder and re-encoded by the Lean builder model (the whole file must be identical byte for byte), all '
     'files are checked by the independent Python decoder. A case is distinct by (call sequence, byte order, target, '
     'chunk, pixel count/seed/units, run count, string lengths).'
 )
 ASSUMPTIONS = [
     'every length/size/extent fits its on-disk field (u8 rank, u32 sizes, u64 positions); beyond that Python raises OverflowError',
-    'time stamps are inputs of the model (read back from the real file before the byte comparison)',
+    'time stamps are inputs of the model (read from their decoded fields of the real file before the byte comparison)',
+    'that open(path, "wb") truncates an existing path is modelled (openWb) and validated by the output-target '
+    'histories of the correspondence run (existing larger/smaller/equal files, files of other programs, replaced '
+    'entries, prefilled BytesIO), not proved; files above 160 kB are judged by the Python decoder only',
 ]
 TRUSTED = [
     'translator harness/translate/sqw.py (ast walk of _build.py/_models.py/_sqw.py)',
@@ -73,9 +76,9 @@ def correspond(ctx):
             if case['target'] == 'file':
                 os.remove(target)
             if sum(len(d) for _, d in batch) > 8_000_000 or len(batch) >= 400:
-                L.correspond_model(ctx, batch, td, 'structure')
+                L.correspond_model(ctx, batch, td, 'bytes')
                 batch = []
-        L.correspond_model(ctx, batch, td, 'structure')
+        L.correspond_model(ctx, batch, td, 'bytes')
 
 
 def _check_case(ctx, case, td, classify=True):
